@@ -6,7 +6,7 @@
 // text, every consumer on 2 gets ServerClosedChannel and is then disconnected (the half-received message is not delivered), the client
 // answers Channel.CloseOk on 2, later calls on 2 keep failing; channels 1 and 3 and the connection keep working with their own replies (the
 // call in flight on 3 gets its own reply), and id 2 can be opened again and works.
-// Bound: the 2 x 2 x 3 x 2 = 24 state combinations; waits are bounded by generous timeouts that only matter when something hangs.
+// Bound: the 2 x 2 x 3 x 2 = 24 state combinations, 2 races x 20 repetitions, 6 publish-in-flight scenarios; waits are bounded by generous timeouts that only matter when something hangs.
 include!("/verif/witness/_common/live_broker.rs");
 use crate::{Auth, Channel, Connection, ConnectionOptions, ConnectionTuning, ConsumerMessage, ConsumerOptions, Error};
 use std::thread;
@@ -183,6 +183,60 @@ fn run_client_close_races_server_close() {
     std::mem::forget(again);
     std::mem::forget(ch1);
     connection.close().unwrap_or_else(|e| panic!("{}: closing the connection afterwards failed: {}", what, e));
+}
+
+// the server closes channel 2 while a publish on it is under way: the transport accepts nothing (or only the method frame), the publishing
+// thread is blocked half way through handing a many-frame body to the I/O thread. The publish is the call in flight: it must come back with
+// ServerClosedChannel (not hang, not panic, not succeed), and everything else is as in the other scenarios.
+fn run_publish_in_flight(method_frame_out: bool, bound: usize) {
+    let what = format!("publish in flight (method frame out: {}, mem_channel_bound {})", method_frame_out, bound);
+    let ctl = Handle::new();
+    (ctl.0).0.lock().unwrap().tune = Some(connection_::Tune { channel_max: 16, frame_max: 4096, heartbeat: 0 });
+    let tuning = ConnectionTuning::default().mem_channel_bound(bound).buffered_writes_high_water(2000).buffered_writes_low_water(0);
+    let mut connection = Connection::insecure_open_stream(LiveBroker::new(ctl.clone()), ConnectionOptions::<Auth>::default().heartbeat(0), tuning).expect("handshake");
+    let ch1 = connection.open_channel(Some(1)).unwrap();
+    let ch2 = connection.open_channel(Some(2)).unwrap();
+    ctl.take_seen();
+    // the transport takes the Basic.Publish method frame (a few dozen bytes) at most
+    ctl.set_budget(Some(if method_frame_out { 30 } else { 0 }));
+    let h = thread::spawn(move || {
+        let body = vec![0x5au8; 400_000]; // about 100 body frames: far more than the bounded queue and the write buffer take
+        let r = ch2.basic_publish("big", crate::Publish::new(&body, "rk"));
+        (ch2, r)
+    });
+    thread::sleep(Duration::from_millis(100));
+    assert!(!h.is_finished(), "{}: scenario not reached: the publish was not held back", what);
+    ctl.inject(method_bytes(2, AmqpChannel::Close(channel_::Close { reply_code: 406, reply_text: "PRECONDITION_FAILED - boom".to_string(), class_id: 60, method_id: 40 })));
+    let start = Instant::now();
+    while !h.is_finished() {
+        assert!(start.elapsed() < T, "{}: the publish in flight was never released by the server's close", what);
+        thread::sleep(Duration::from_millis(2));
+    }
+    let (ch2, r) = match h.join() {
+        Ok(v) => v,
+        Err(e) => panic!("{}: the publish in flight panicked: {:?}", what, e.downcast_ref::<String>().cloned().or_else(|| e.downcast_ref::<&str>().map(|s| s.to_string()))),
+    };
+    expect_server_closed(&format!("{}: the publish", what), r.map(|()| 0));
+    ctl.set_budget(None);
+    assert!(ctl.wait_for(|(n, f)| *n == 2 && matches!(f, AMQPFrame::Method(_, AMQPClass::Channel(AmqpChannel::CloseOk(_)))), T), "{}: no Channel.CloseOk on 2", what);
+    assert!(ch2.queue_purge("q2").is_err(), "{}: a later call on the closed channel succeeded", what);
+    assert!(ch2.basic_publish("", crate::Publish::new(b"x", "rk")).is_err(), "{}: a later publish on the closed channel succeeded", what);
+    assert_eq!(ch1.queue_purge("q1").unwrap_or_else(|e| panic!("{}: channel 1 broken: {}", what, e)), 1001, "{}", what);
+    drop(ch2); // dropping the handle of a channel the server closed must be harmless
+    let again = connection.open_channel(Some(2)).unwrap_or_else(|e| panic!("{}: id 2 not available again: {}", what, e));
+    assert_eq!(again.queue_purge("q2").unwrap(), 1002, "{}", what);
+    std::mem::forget(again);
+    std::mem::forget(ch1);
+    connection.close().unwrap_or_else(|e| panic!("{}: closing the connection afterwards failed: {}", what, e));
+}
+
+#[test]
+fn verif_sweep_c09_publish_in_flight() {
+    for &method_frame_out in &[false, true] {
+        for &bound in &[1usize, 4, 16] {
+            with_watchdog(format!("publish in flight {} {}", method_frame_out, bound), 40, move || run_publish_in_flight(method_frame_out, bound));
+        }
+    }
 }
 
 #[test]
